@@ -1,7 +1,9 @@
 // Package detproto is a small deterministic protocol written against
 // internal/round with the message shapes the handler distinguishes:
-//   round 2: broadcast + p2p     round 3: broadcast only
-//   round 4: p2p only            then output.
+//
+//	round 2: broadcast + p2p     round 3: broadcast only
+//	round 4: p2p only            then output.
+//
 // Every payload is a hash of (sender, recipient, round, digest of everything the
 // sender stored so far), so the result is a function of the inputs only; the
 // result additionally records, for round 2, whether the sender's broadcast had
@@ -31,6 +33,7 @@ type Result struct {
 
 type state struct {
 	*round.Helper
+	skip   bool // round 3 is silent: nothing is sent for it and nothing awaited in it
 	seed   []byte
 	stored map[string][]byte // key "round/kind/from" -> payload
 	viol   int
@@ -56,6 +59,18 @@ func (s *state) payload(rnd int, kind string, to party.ID) []byte {
 	fmt.Fprintf(h, "%s|%s|%d|%s|", s.SelfID(), to, rnd, kind)
 	h.Write(s.digest())
 	return h.Sum(nil)
+}
+
+// StartSkip is Start with a silent round 3.
+func StartSkip(selfID party.ID, ids []party.ID, seed []byte) protocol.StartFunc {
+	sf := Start(selfID, ids, seed)
+	return func(sessionID []byte) (round.Session, error) {
+		s, err := sf(sessionID)
+		if r1, ok := s.(*round1); ok && err == nil {
+			r1.skip = true
+		}
+		return s, err
+	}
 }
 
 // Start returns the start function.
@@ -110,9 +125,9 @@ func (r *round1) Finalize(out chan<- *round.Message) (round.Session, error) {
 // ---- round 2: broadcast + p2p
 type round2 struct{ *state }
 
-func (round2) Number() round.Number                        { return 2 }
-func (round2) MessageContent() round.Content               { return &Msg2{} }
-func (round2) BroadcastContent() round.BroadcastContent    { return &Bcast2{} }
+func (round2) Number() round.Number                     { return 2 }
+func (round2) MessageContent() round.Content            { return &Msg2{} }
+func (round2) BroadcastContent() round.BroadcastContent { return &Bcast2{} }
 func (r *round2) StoreBroadcastMessage(m round.Message) error {
 	b, ok := m.Content.(*Bcast2)
 	if !ok || b == nil || len(b.V) != 32 {
@@ -136,10 +151,30 @@ func (r *round2) StoreMessage(m round.Message) error {
 	return nil
 }
 func (r *round2) Finalize(out chan<- *round.Message) (round.Session, error) {
+	if r.skip {
+		return &round3silent{r.state}, nil
+	}
 	if err := r.BroadcastMessage(out, &Bcast3{V: r.payload(3, "b", "")}); err != nil {
 		return r, err
 	}
 	return &round3{r.state}, nil
+}
+
+// ---- round 3, silent variant: a local step between two communication rounds (a party that completes round 2
+// walks straight through it, so its round-4 messages can reach a peer that is still in round 2)
+type round3silent struct{ *state }
+
+func (round3silent) Number() round.Number              { return 3 }
+func (round3silent) MessageContent() round.Content     { return nil }
+func (round3silent) VerifyMessage(round.Message) error { return nil }
+func (round3silent) StoreMessage(round.Message) error  { return nil }
+func (r *round3silent) Finalize(out chan<- *round.Message) (round.Session, error) {
+	for _, id := range r.OtherPartyIDs() {
+		if err := r.SendMessage(out, &Msg4{V: r.payload(4, "p", id)}, id); err != nil {
+			return r, err
+		}
+	}
+	return &round4{r.state}, nil
 }
 
 // ---- round 3: broadcast only
